@@ -7,9 +7,17 @@
     literal grammar of the independent front-end lifted to terms; z3 proves decoded bytes = UTF-8(s)
     and that the token neither ends early nor contains a raw line break.  One model per class
     combination is replayed through the real Bytes(s) + compileTeal + front-end.
+(1b) with assembleConstants the compiler reads that token back itself (unescapeStr, from its current
+    AST: slice, two-character replace, latin-1 / unicode-escape / utf-8 codec steps whose sequence
+    structure is decided by the solver under the class constraints): z3 proves
+    unescapeStr(escapeStr(s)).encode("utf-8") = UTF-8(s) and that it never raises; the same members
+    are replayed with assembleConstants=True (pushbytes operand).
 (2) the base16/base32/base64 validators: their `re` patterns are read from the source and proved
     language-EQUIVALENT (z3 regex, unbounded length) to RFC 4648 reference grammars; members chosen
     by the solver are compiled and decoded.
+(2b) the base branches of Bytes.__init__ translated from source (prefix test, slice, validator call):
+    accepted <=> well-formed (base16: one optional leading 0x) and the digits passed on are the text's
+    own; witnesses and fixed near-miss texts are replayed through the real constructor.
 (3) Int(n): the constructor's guard translated from source: accepted <=> 0 <= n < 2^64 (z3 Int);
     boundary models replayed (emitted immediate = n).
 (4) Addr / MethodSignature: members of the accepted languages chosen by z3 are replayed against
@@ -103,8 +111,13 @@ class SymText:
             for c in self.e:
                 if c.kind == "lit":
                     out += [Ch(b, "lit") for b in chr(c.v).encode("utf-8")]
-                elif c.kind in ("high", "hex"):
-                    raise HarnessError("utf-8 encode of a derived character is not modelled")
+                elif c.kind in ("hex", "low8"):
+                    out.append(Ch(_low8(c.v), c.kind))
+                elif c.kind == "high":
+                    # a code point 0x80..0xFF: two bytes
+                    b = _low8(c.v)
+                    out += [Ch(z3.Concat(z3.BitVecVal(0b110000, 6), z3.Extract(7, 6, b)), "high"),
+                            Ch(z3.Concat(z3.BitVecVal(0b10, 2), z3.Extract(5, 0, b)), "high")]
                 else:
                     bs = utf8_bytes(c.v, c.kind)
                     if len(bs) == 1:
@@ -142,14 +155,37 @@ class SymText:
             return SymText(out, True)
         raise HarnessError("codec %r" % codec)
 
-    def decode(self, codec):
+    def decode(self, codec, decide=None):
         if not self.is_bytes:
             raise HarnessError("decode on str")
         if codec == "latin-1":
             return SymText(self.e, False)
+        if codec in ("unicode-escape", "unicode_escape"):
+            return SymText(_decode_unicode_escape(self.e, decide), False)
+        if codec == "utf-8":
+            return SymText(_decode_utf8(self.e, decide), False)
         raise HarnessError("decode codec %r is not modelled" % codec)
 
+    def slice(self, lo, hi):
+        return SymText(self.e[lo:hi], self.is_bytes)
+
     def replace(self, a: str, b: str):
+        if not self.is_bytes and len(a) == 2:
+            # two-character pattern, leftmost non-overlapping matches; every element's equality with a pattern
+            # character must be decidable from its class
+            out, i = [], 0
+            while i < len(self.e):
+                if i + 1 < len(self.e):
+                    m0, m1 = _is_char(self.e[i], a[0]), _is_char(self.e[i + 1], a[1])
+                    if m0 is None or (m0 and m1 is None):
+                        raise HarnessError("replace: cannot decide whether an element is %r" % a)
+                    if m0 and m1:
+                        out += [Ch(ord(x), "lit") for x in b]
+                        i += 2
+                        continue
+                out.append(self.e[i])
+                i += 1
+            return SymText(out, False)
         if self.is_bytes or len(a) != 1:
             raise HarnessError("replace shape")
         out = []
@@ -182,7 +218,131 @@ def _low8(v):
     return v if v.size() == 8 else z3.Extract(7, 0, v)
 
 
-def interpret_escape(fn_ast: ast.FunctionDef, s: SymText) -> SymText:
+def _is_char(c, ch: str):
+    """is the element the character ch?  True / False / None (not decidable from its class)"""
+    o = ord(ch)
+    if c.kind == "lit":
+        return c.v == o
+    fixed = {"quote": 0x22, "bslash": 0x5C, "tab": 9, "lf": 10, "cr": 13, "del": 0x7F}
+    if c.kind in fixed:
+        return fixed[c.kind] == o
+    if c.kind == "print":
+        return False if (o in (0x22, 0x5C) or not 0x20 <= o <= 0x7E) else None
+    if c.kind == "hex":
+        return False if ch not in "0123456789abcdef" else None
+    if c.kind == "c0":
+        return False if (o > 0x1F or o in (9, 10, 13)) else None
+    if c.kind in ("high", "u2", "u3", "u4"):
+        return False if o < 0x80 else None
+    if c.kind == "low8":
+        return False if o >= 0x80 else None
+    return None
+
+
+class Raises(Exception):
+    """the interpreted function raises on every string of the class combination (or on some: `cond` given)"""
+
+
+def _decode_unicode_escape(e, decide):
+    """bytes.decode('unicode-escape') for the escapes escapeStr can produce (\\n \\r \\t \\\\ \\' \\" \\xHH)"""
+    out, i = [], 0
+    while i < len(e):
+        c = e[i]
+        bs = _is_char(c, "\\")
+        if bs is None:
+            raise HarnessError("unicode-escape decode: cannot decide whether an element is a backslash")
+        if not bs:
+            out.append(c)
+            i += 1
+            continue
+        if i + 1 >= len(e):
+            raise Raises("trailing backslash")
+        d = e[i + 1]
+        if d.kind != "lit":
+            raise HarnessError("unicode-escape decode: escape followed by a non-constant character")
+        ch = chr(d.v)
+        simple = {"n": 10, "r": 13, "t": 9, "\\": 0x5C, "'": 0x27, '"': 0x22, "a": 7, "b": 8, "f": 12, "v": 11}
+        if ch in simple:
+            out.append(Ch(simple[ch], "lit"))
+            i += 2
+            continue
+        if ch == "x":
+            if i + 3 >= len(e):
+                raise Raises("truncated \\xXX escape")
+            vals = []
+            for h in (e[i + 2], e[i + 3]):
+                if h.kind == "hex":
+                    hv = _low8(h.v)
+                    vals.append(z3.If(z3.ULE(hv, z3.BitVecVal(57, 8)), hv - z3.BitVecVal(48, 8), hv - z3.BitVecVal(87, 8)))
+                elif h.kind == "lit" and chr(h.v) in "0123456789abcdefABCDEF":
+                    vals.append(z3.BitVecVal(int(chr(h.v), 16), 8))
+                else:
+                    raise HarnessError("unicode-escape decode: \\x followed by a non-hex element")
+            v = z3.simplify(vals[0] * z3.BitVecVal(16, 8) + vals[1])
+            if z3.is_bv_value(v):
+                out.append(Ch(v.as_long(), "lit"))
+            else:
+                hi = decide(z3.UGE(v, z3.BitVecVal(0x80, 8))) if decide else None
+                if hi is None:
+                    raise HarnessError("unicode-escape decode: cannot classify the value of a \\xHH escape")
+                out.append(Ch(v, "high" if hi else "low8"))
+            i += 4
+            continue
+        raise HarnessError("unicode-escape decode: escape \\%s is not modelled" % ch)
+    return out
+
+
+def _decode_utf8(e, decide):
+    """bytes.decode('utf-8'): the sequence structure must be decidable from the class constraints"""
+    def rng(b, lo, hi):
+        return z3.And(z3.UGE(b, z3.BitVecVal(lo, 8)), z3.ULE(b, z3.BitVecVal(hi, 8)))
+
+    def need(cond, what):
+        r = decide(cond) if decide else None
+        if r is None:
+            raise HarnessError("utf-8 decode: cannot decide %s" % what)
+        return r
+
+    out, i = [], 0
+    while i < len(e):
+        c = e[i]
+        if c.kind == "lit" and c.v < 0x80 or c.kind in ("print", "hex", "low8", "quote", "bslash", "tab", "lf", "cr", "c0", "del"):
+            out.append(c)
+            i += 1
+            continue
+        if c.kind in ("u2", "u3", "u4"):
+            raise HarnessError("utf-8 decode of a code point above 255")
+        lead = _low8(c.v)
+        n = None
+        for lo, hi, k in ((0xC2, 0xDF, 2), (0xE0, 0xEF, 3), (0xF0, 0xF4, 4)):
+            if need(rng(lead, lo, hi), "the length of a UTF-8 sequence"):
+                n = k
+                break
+        if n is None:
+            raise Raises("invalid UTF-8 lead byte")
+        if i + n > len(e):
+            raise Raises("truncated UTF-8 sequence")
+        cont = [_low8(x.v) for x in e[i + 1:i + n]]
+        for x, b in zip(e[i + 1:i + n], cont):
+            if x.kind not in ("high", "lit") or not need(rng(b, 0x80, 0xBF), "a UTF-8 continuation byte"):
+                raise Raises("invalid UTF-8 continuation byte")
+        b1 = cont[0]
+        if n == 3 and not need(z3.And(z3.Implies(lead == 0xE0, z3.UGE(b1, 0xA0)), z3.Implies(lead == 0xED, z3.ULE(b1, 0x9F))), "overlong/surrogate form"):
+            raise Raises("overlong or surrogate UTF-8 sequence")
+        if n == 4 and not need(z3.And(z3.Implies(lead == 0xF0, z3.UGE(b1, 0x90)), z3.Implies(lead == 0xF4, z3.ULE(b1, 0x8F))), "overlong/out-of-range form"):
+            raise Raises("overlong or out-of-range UTF-8 sequence")
+        if n == 2:
+            cp = z3.Concat(z3.BitVecVal(0, 10), z3.Extract(4, 0, lead), z3.Extract(5, 0, cont[0]))
+        elif n == 3:
+            cp = z3.Concat(z3.BitVecVal(0, 5), z3.Extract(3, 0, lead), z3.Extract(5, 0, cont[0]), z3.Extract(5, 0, cont[1]))
+        else:
+            cp = z3.Concat(z3.Extract(2, 0, lead), z3.Extract(5, 0, cont[0]), z3.Extract(5, 0, cont[1]), z3.Extract(5, 0, cont[2]))
+        out.append(Ch(cp, {2: "u2", 3: "u3", 4: "u4"}[n]))
+        i += n
+    return out
+
+
+def interpret_escape(fn_ast: ast.FunctionDef, s: SymText, decide=None) -> SymText:
     """runs the body of escapeStr over the symbolic text; supports assignments to the parameter from
     method-call chains with constant arguments and a return of constant + name + constant"""
     env = {fn_ast.args.args[0].arg: s}
@@ -200,8 +360,10 @@ def interpret_escape(fn_ast: ast.FunctionDef, s: SymText) -> SymText:
             if not isinstance(recv, SymText) or not all(isinstance(a, str) for a in args):
                 raise HarnessError("call shape in escapeStr")
             m = e.func.attr
-            if m in ("encode", "decode") and len(args) == 1:
-                return getattr(recv, m)(args[0])
+            if m == "decode" and len(args) == 1:
+                return recv.decode(args[0], decide)
+            if m == "encode" and len(args) == 1:
+                return recv.encode(args[0])
             if m == "replace" and len(args) == 2:
                 return recv.replace(args[0], args[1])
             raise HarnessError("method %s in escapeStr is not modelled" % m)
@@ -212,7 +374,61 @@ def interpret_escape(fn_ast: ast.FunctionDef, s: SymText) -> SymText:
             if isinstance(l, SymText) and isinstance(r, str):
                 return l.concat_const("", r)
             raise HarnessError("concatenation shape in escapeStr")
-        raise HarnessError("expression %s in escapeStr is not modelled" % ast.dump(e)[:80])
+        if isinstance(e, ast.Call) and isinstance(e.func, ast.Name) and e.func.id == "len" and len(e.args) == 1:
+            r = ev(e.args[0])
+            if not isinstance(r, SymText):
+                raise HarnessError("len of a non-text")
+            return len(r.e)
+        if isinstance(e, ast.Constant) and isinstance(e.value, int):
+            return e.value
+        if isinstance(e, ast.UnaryOp) and isinstance(e.op, ast.USub) and isinstance(e.operand, ast.Constant):
+            return -e.operand.value
+        if isinstance(e, ast.Subscript):
+            r = ev(e.value)
+            if not isinstance(r, SymText):
+                raise HarnessError("subscript of a non-text")
+            if isinstance(e.slice, ast.Slice):
+                lo = ev(e.slice.lower) if e.slice.lower is not None else None
+                hi = ev(e.slice.upper) if e.slice.upper is not None else None
+                if e.slice.step is not None:
+                    raise HarnessError("slice step")
+                return r.slice(lo, hi)
+            ix = ev(e.slice)
+            if not isinstance(ix, int) or not (-len(r.e) <= ix < len(r.e)):
+                raise Raises("index out of range")
+            return r.e[ix]
+        if isinstance(e, ast.Compare) and len(e.ops) == 1:
+            l, r = ev(e.left), ev(e.comparators[0])
+            op = e.ops[0]
+            if isinstance(l, int) and isinstance(r, int):
+                return {ast.Lt: l < r, ast.LtE: l <= r, ast.Gt: l > r, ast.GtE: l >= r, ast.Eq: l == r, ast.NotEq: l != r}[type(op)]
+            if isinstance(l, Ch) and isinstance(r, str) and len(r) == 1 and isinstance(op, (ast.Eq, ast.NotEq)):
+                m = _is_char(l, r)
+                if m is None:
+                    raise HarnessError("comparison of an element with %r is not decidable from its class" % r)
+                return m if isinstance(op, ast.Eq) else not m
+            raise HarnessError("comparison shape")
+        if isinstance(e, ast.BoolOp):
+            vals = [ev(x) for x in e.values]      # (no side effects: evaluating all operands is harmless, but an
+            if not all(isinstance(x, bool) for x in vals):   # operand that raises would have to be short-circuited)
+                raise HarnessError("boolean operand shape")
+            return any(vals) if isinstance(e.op, ast.Or) else all(vals)
+        raise HarnessError("expression %s in %s is not modelled" % (ast.dump(e)[:80], fn_ast.name))
+
+    def ev_short(e):
+        """boolean test with short-circuit evaluation (an index may be out of range in a later operand)"""
+        if isinstance(e, ast.BoolOp):
+            for x in e.values:
+                v = ev_short(x)
+                if isinstance(e.op, ast.Or) and v:
+                    return True
+                if isinstance(e.op, ast.And) and not v:
+                    return False
+            return isinstance(e.op, ast.And)
+        v = ev(e)
+        if not isinstance(v, bool):
+            raise HarnessError("test is not boolean")
+        return v
 
     for st in fn_ast.body:
         if isinstance(st, ast.Expr) and isinstance(st.value, ast.Constant):
@@ -223,10 +439,14 @@ def interpret_escape(fn_ast: ast.FunctionDef, s: SymText) -> SymText:
         if isinstance(st, ast.Return):
             r = ev(st.value)
             if not isinstance(r, SymText) or r.is_bytes:
-                raise HarnessError("escapeStr does not return a str built from its argument")
+                raise HarnessError("%s does not return a str built from its argument" % fn_ast.name)
             return r
-        raise HarnessError("statement %s in escapeStr is not modelled" % ast.dump(st)[:80])
-    raise HarnessError("escapeStr has no return")
+        if isinstance(st, ast.If) and not st.orelse and len(st.body) == 1 and isinstance(st.body[0], ast.Raise):
+            if ev_short(st.test):
+                raise Raises("%s raises (line %d)" % (fn_ast.name, st.lineno))
+            continue
+        raise HarnessError("statement %s in %s is not modelled" % (ast.dump(st)[:80], fn_ast.name))
+    raise HarnessError("%s has no return" % fn_ast.name)
 
 
 def read_literal(tok: SymText):
@@ -340,13 +560,95 @@ def escape_obligations(maxn, timeout_ms):
     return obs, witnesses, src
 
 
-def real_bytes_of_str(text: str):
+def _extract_shape_ok():
+    """extractBytesValue (pyteal/compiler/constants.py) turns a quoted byte-op argument into
+    unescapeStr(value).encode("utf-8"): checked on its current AST"""
+    import pyteal.compiler.constants as Cn
+    fn = ast.parse(textwrap.dedent(inspect.getsource(Cn.extractBytesValue))).body[0]
+    for st in ast.walk(fn):
+        if isinstance(st, ast.If) and "startswith('\"')" in ast.unparse(st.test).replace('"\\""', "'\"'"):
+            for r in st.body:
+                if isinstance(r, ast.Return) and ast.unparse(r.value).replace('"', "'") == "unescapeStr(value).encode('utf-8')":
+                    return True
+    return False
+
+
+def assembled_obligations(maxn, timeout_ms):
+    """with assembleConstants the compiler reads its own byte-op argument back: for every class combination,
+    unescapeStr(escapeStr(s)).encode("utf-8") == UTF-8(s), and unescapeStr does not raise"""
+    import pyteal.util as U
+    if not _extract_shape_ok():
+        raise HarnessError("extractBytesValue no longer reads a quoted argument as unescapeStr(value).encode('utf-8')")
+    fe = ast.parse(textwrap.dedent(inspect.getsource(U.escapeStr))).body[0]
+    fu = ast.parse(textwrap.dedent(inspect.getsource(U.unescapeStr))).body[0]
+    src = "%s:%d" % (inspect.getsourcefile(U.unescapeStr), inspect.getsourcelines(U.unescapeStr)[1])
+    obs, witnesses = [], []
+    for n in range(0, maxn + 1):
+        for combo in itertools.product(sorted(CLASSES), repeat=n):
+            cps = [z3.BitVec("cp%d" % i, 21) for i in range(n)]
+            cons = []
+            for cp, cls in zip(cps, combo):
+                cons += class_constraint(cp, cls)
+            sv = z3.Solver()
+            sv.set("timeout", timeout_ms)
+            sv.add(*cons)
+            nq = [0]
+
+            def decide(cond):
+                for c, ans in ((z3.Not(cond), True), (cond, False)):
+                    sv.push()
+                    sv.add(c)
+                    r = str(sv.check())
+                    sv.pop()
+                    nq[0] += 1
+                    if r == "unsat":
+                        return ans
+                return None
+            t0 = time.time()
+            s0 = SymText([Ch(cp, cls) for cp, cls in zip(cps, combo)])
+            want = []
+            for cp, cls in zip(cps, combo):
+                want += utf8_bytes(cp, cls)
+            problem, got = None, None
+            try:
+                tok = interpret_escape(fe, s0)
+                val = interpret_escape(fu, tok, decide)
+                got = [c.v if c.kind == "lit" else _low8(c.v) for c in val.encode("utf-8").e]
+            except Raises as e:
+                problem = str(e)
+            except HarnessError as e:
+                obs.append({"classes": list(combo), "result": "untranslatable", "why": str(e), "time": round(time.time() - t0, 4)})
+                continue
+            if problem is not None or len(got) != len(want):
+                res = str(sv.check())
+                why = problem or "read back %d bytes, expected %d" % (len(got), len(want))
+            else:
+                diffs = [(_low8(a) if not isinstance(a, int) else z3.BitVecVal(a, 8)) != (_low8(b) if not isinstance(b, int) else z3.BitVecVal(b, 8))
+                         for a, b in zip(got, want)]
+                sv.push()
+                sv.add(z3.Or(*diffs) if diffs else False)
+                res = str(sv.check())
+                why = "bytes read back by the compiler differ from UTF-8(s)"
+                m = sv.model() if res == "sat" else None
+                sv.pop()
+                if res == "sat":
+                    witnesses.append(("".join(chr(m.eval(cp, model_completion=True).as_long()) for cp in cps), True, list(combo)))
+                    obs.append({"classes": list(combo), "result": "sat", "why": why, "time": round(time.time() - t0, 4), "decisions": nq[0]})
+                    continue
+            if res == "sat" and (problem is not None or len(got) != len(want)):
+                m = sv.model()
+                witnesses.append(("".join(chr(m.eval(cp, model_completion=True).as_long()) for cp in cps), True, list(combo)))
+            obs.append({"classes": list(combo), "result": res, "why": why if res == "sat" else None, "time": round(time.time() - t0, 4), "decisions": nq[0]})
+    return obs, witnesses, src
+
+
+def real_bytes_of_str(text: str, assemble: bool = False):
     """Bytes(text) through the real compiler and the independent front-end -> bytes pushed, or an error string"""
     import pyteal as pt
     from ..recipe.build import reset_pyteal_state
     reset_pyteal_state()
     try:
-        teal = pt.compileTeal(pt.Seq(pt.Pop(pt.Bytes(text)), pt.Int(1)), pt.Mode.Application, version=6)
+        teal = pt.compileTeal(pt.Seq(pt.Pop(pt.Bytes(text)), pt.Int(1)), pt.Mode.Application, version=6, assembleConstants=assemble)
     except Exception as e:  # noqa
         return None, "compile: %s: %s" % (type(e).__name__, str(e)[:80]), ""
     finally:
@@ -358,7 +660,7 @@ def real_bytes_of_str(text: str):
     cs = check_program(prog, "A")
     if cs:
         return None, "front-end: %s" % cs[0], teal
-    pushes = [i for i in prog.instrs if i.op == "byte"]
+    pushes = [i for i in prog.instrs if i.op in ("byte", "pushbytes")]
     if len(pushes) != 1 or len(prog.instrs) != 4:
         return None, "unexpected instruction stream (%d instructions)" % len(prog.instrs), teal
     return bytes(pushes[0].args[0]), None, teal
@@ -489,6 +791,251 @@ def validator_obligations(timeout_ms):
                 if name == "valid_base16":
                     members.append((name, "0x" + s.model().eval(x).as_string()))
     return obs, members
+
+
+# ---------------------------------------------------------------------------
+# (2b) what Bytes.__init__ does to the text before / after validating it
+def constructor_branches(prefix=None, absent=()):
+    """Bytes.__init__(base, text) from its CURRENT AST: for each base, the paths of its branch as
+    (path condition, validated terms [(validator name, term)], environment, approximations) over the text.
+    prefix=None: the text is the free string x; prefix=P: the text is P ++ y with y free (the case split
+    the obligations are decided under: string solvers do far better on it than on prefix tests + slices).
+    -> (free variable, text term, {base: paths}, prefixes tested by the source)"""
+    import pyteal as pt
+    fn = ast.parse(textwrap.dedent(inspect.getsource(pt.Bytes.__init__))).body[0]
+    free = z3.String("x") if prefix is None else z3.String("y")
+    x = free if prefix is None else z3.Concat(z3.StringVal(prefix), free)
+    anyre = z3.Full(z3.ReSort(z3.StringSort()))
+    tested = set()
+    branches = {}
+    for node in ast.walk(fn):
+        if isinstance(node, ast.If) and isinstance(node.test, ast.Compare) and ast.unparse(node.test.left) == "self.base" \
+                and len(node.test.ops) == 1 and isinstance(node.test.ops[0], ast.Eq) and isinstance(node.test.comparators[0], ast.Constant) \
+                and node.test.comparators[0].value in ("base16", "base32", "base64"):
+            branches[node.test.comparators[0].value] = node.body
+    if set(branches) != {"base16", "base32", "base64"}:
+        raise HarnessError("Bytes.__init__: expected one branch per base, found %s" % sorted(branches))
+
+    def is_text(e):
+        return isinstance(e, ast.Name) and e.id == "arg2"
+
+    def ex(e, env, flags):
+        if is_text(e):
+            return x
+        if isinstance(e, ast.Attribute) and ast.unparse(e) == "self.byte_str":
+            if "byte_str" not in env:
+                raise HarnessError("Bytes.__init__: byte_str read before it is set")
+            return env["byte_str"]
+        if isinstance(e, ast.Constant) and isinstance(e.value, str):
+            return z3.StringVal(e.value)
+        if isinstance(e, ast.Subscript) and isinstance(e.slice, ast.Slice) and e.slice.step is None:
+            lo = e.slice.lower.value if isinstance(e.slice.lower, ast.Constant) else (0 if e.slice.lower is None else None)
+            if lo is None or lo < 0:
+                raise HarnessError("Bytes.__init__: slice bound")
+            if e.slice.upper is None:
+                if is_text(e.value) and prefix is not None and lo <= len(prefix):
+                    return z3.Concat(z3.StringVal(prefix[lo:]), free) if lo < len(prefix) else free
+                t = ex(e.value, env, flags)
+                return z3.SubString(t, lo, z3.Length(t))       # (z3: clipped at the end, as Python)
+            t = ex(e.value, env, flags)
+            if isinstance(e.slice.upper, ast.Constant) and isinstance(e.slice.upper.value, int) and e.slice.upper.value >= lo:
+                return z3.SubString(t, lo, e.slice.upper.value - lo)
+            raise HarnessError("Bytes.__init__: slice bound")
+        if isinstance(e, ast.BinOp) and isinstance(e.op, ast.Add):
+            return z3.Concat(ex(e.left, env, flags), ex(e.right, env, flags))
+        if isinstance(e, ast.Call) and isinstance(e.func, ast.Attribute) and not e.keywords:
+            t = ex(e.func.value, env, flags)
+            args = [ex(a, env, flags) for a in e.args]
+            m = e.func.attr
+            if m == "replace" and len(args) == 2:
+                # Python replaces every occurrence in one pass; z3py offers the first occurrence only: three rounds, marked approximate
+                flags.append("str.replace approximated by three first-occurrence replacements")
+                for _ in range(3):
+                    t = z3.Replace(t, args[0], args[1])
+                return t
+            if m in ("removeprefix",) and len(args) == 1:
+                return z3.If(z3.PrefixOf(args[0], t), z3.SubString(t, z3.Length(args[0]), z3.Length(t)), t)
+            raise HarnessError("Bytes.__init__: method %s is not modelled" % m)
+        raise HarnessError("Bytes.__init__: expression %s is not modelled" % ast.dump(e)[:80])
+
+    def cond(e, env, flags):
+        if isinstance(e, ast.Call) and isinstance(e.func, ast.Attribute) and e.func.attr in ("startswith", "endswith") and len(e.args) == 1:
+            if e.func.attr == "startswith" and is_text(e.func.value) and isinstance(e.args[0], ast.Constant) and isinstance(e.args[0].value, str):
+                c = e.args[0].value
+                tested.add(c)
+                if prefix is not None and prefix.startswith(c):
+                    return z3.BoolVal(True)
+                if prefix is not None and not c.startswith(prefix):
+                    return z3.BoolVal(False)
+                if prefix is None and any(c.startswith(a) for a in absent):
+                    return z3.BoolVal(False)                             # the case under which this run is used excludes it
+                if prefix is None:
+                    return z3.InRe(x, z3.Concat(z3.Re(c), anyre))       # as a regular constraint
+            t, a = ex(e.func.value, env, flags), ex(e.args[0], env, flags)
+            return z3.PrefixOf(a, t) if e.func.attr == "startswith" else z3.SuffixOf(a, t)
+        if isinstance(e, ast.UnaryOp) and isinstance(e.op, ast.Not):
+            return z3.Not(cond(e.operand, env, flags))
+        if isinstance(e, ast.Compare) and len(e.ops) == 1 and isinstance(e.ops[0], (ast.Eq, ast.NotEq)):
+            r = ex(e.left, env, flags) == ex(e.comparators[0], env, flags)
+            return r if isinstance(e.ops[0], ast.Eq) else z3.Not(r)
+        raise HarnessError("Bytes.__init__: condition %s is not modelled" % ast.dump(e)[:80])
+
+    def run(body, pc, env, val, flags):
+        """-> list of finished paths"""
+        if not body:
+            return [(pc, val, env, flags)]
+        st, rest = body[0], body[1:]
+        if isinstance(st, ast.Expr) and isinstance(st.value, ast.Call) and isinstance(st.value.func, ast.Name) \
+                and st.value.func.id in ("valid_base16", "valid_base32", "valid_base64") and len(st.value.args) == 1:
+            return run(rest, pc, env, val + [(st.value.func.id, ex(st.value.args[0], env, flags))], flags)
+        if isinstance(st, ast.Assign) and len(st.targets) == 1 and ast.unparse(st.targets[0]) == "self.byte_str":
+            return run(rest, pc, dict(env, byte_str=ex(st.value, env, flags)), val, flags)
+        if isinstance(st, ast.If):
+            fl = list(flags)
+            c = cond(st.test, env, fl)
+            out = []
+            if not z3.is_false(c):
+                out += run(list(st.body) + rest, pc + [c], env, val, list(fl))
+            if not z3.is_true(c):
+                out += run(list(st.orelse) + rest, pc + [z3.Not(c)], env, val, list(fl))
+            return out
+        if isinstance(st, ast.Raise):
+            return [(pc, None, env, flags)]      # rejected on this path
+        raise HarnessError("Bytes.__init__: statement %s is not modelled" % ast.dump(st)[:80])
+
+    out = {}
+    for base, body in branches.items():
+        out[base] = run(list(body), [], {}, [], [])
+    return free, x, out, tested
+
+
+def _as_one_regex(f, term):
+    """a Boolean combination of memberships of ONE term, as a single regular expression (emptiness of a regex is decided
+    at once where the same question spread over several membership atoms is not); None when f has another shape"""
+    if z3.is_true(f):
+        return z3.Full(z3.ReSort(z3.StringSort()))
+    if z3.is_false(f):
+        return z3.Empty(z3.ReSort(z3.StringSort()))
+    if z3.is_app_of(f, z3.Z3_OP_SEQ_IN_RE):
+        return f.arg(1) if z3.eq(f.arg(0), term) else None
+    if z3.is_not(f):
+        r = _as_one_regex(f.arg(0), term)
+        return None if r is None else z3.Complement(r)
+    if z3.is_and(f) or z3.is_or(f):
+        rs = [_as_one_regex(c, term) for c in f.children()]
+        if any(r is None for r in rs):
+            return None
+        if len(rs) == 1:
+            return rs[0]
+        return z3.Intersect(*rs) if z3.is_and(f) else z3.Union(*rs)
+    return None
+
+
+def constructor_obligations(timeout_ms):
+    """accepted <=> the text is well-formed (RFC 4648; base16 with one optional leading 0x), and the digits that reach
+    the program are the text's own (minus that prefix).  Decided per case of a split on the prefixes the source tests
+    (and "0x"): text = P ++ y for each such P, and text starting with none of them."""
+    pats = source_patterns()
+    refs = reference_grammars()
+    anyre = z3.Full(z3.ReSort(z3.StringSort()))
+    _, _, _, tested = constructor_branches(None)
+    prefixes = sorted(tested | {"0x"})
+    obs = []
+    for case in prefixes + [None]:
+        free, x, branches, _ = constructor_branches(case, absent=prefixes if case is None else ())
+        case_cons = [] if case is not None else [z3.Not(z3.InRe(x, z3.Concat(z3.Re(p), anyre))) for p in prefixes]
+        for base, paths in sorted(branches.items()):
+            vname = "valid_" + base
+            accepted, same_digits, approx = [], [], []
+            if base != "base16":
+                ref_digits = x
+            elif case is not None and case.startswith("0x"):
+                ref_digits = z3.Concat(z3.StringVal(case[2:]), free) if len(case) > 2 else free
+            elif case is None:
+                ref_digits = x          # (does not start with 0x in this case)
+            else:
+                ref_digits = z3.If(z3.PrefixOf(z3.StringVal("0x"), x), z3.SubString(x, 2, z3.Length(x)), x)
+            for pc, val, env, flags in paths:
+                approx += flags
+                if val is None:
+                    continue
+                if not val or "byte_str" not in env:
+                    raise HarnessError("Bytes.__init__: a %s path ends without validating / setting the text" % base)
+                acc = list(pc)
+                for vn, term in val:
+                    pat, even = pats[vn]
+                    r = re_to_z3(pat)
+                    if even:
+                        anyc = z3.AllChar(z3.ReSort(z3.StringSort()))
+                        r = z3.Intersect(r, z3.Star(z3.Concat(anyc, anyc)))     # even length, as a regular constraint
+                    acc.append(z3.InRe(term, r))
+                accepted.append(z3.And(*acc))
+                same_digits.append(z3.Implies(z3.And(*acc), env["byte_str"] == ref_digits))
+            acc_any = z3.Or(*accepted) if accepted else z3.BoolVal(False)
+            r_ref = z3.Concat(z3.Option(z3.Re("0x")), refs[vname]) if base == "base16" else refs[vname]
+            in_ref = z3.InRe(x, r_ref)
+            for what, query in (("accepts-a-malformed-text", [acc_any, z3.Not(in_ref)]), ("rejects-a-well-formed-text", [in_ref, z3.Not(acc_any)]),
+                                ("passes-on-other-digits", [acc_any, z3.Not(z3.And(*same_digits))])):
+                sv = z3.Solver()
+                sv.set("timeout", timeout_ms)
+                one = _as_one_regex(z3.And(*(query + case_cons)), free)
+                if one is not None:
+                    sv.add(z3.InRe(free, one))
+                else:
+                    sv.add(*query)
+                    sv.add(*case_cons)
+                t0 = time.time()
+                r = str(sv.check())
+                ob = {"base": base, "case": "text = %r ++ y" % case if case is not None else "text starts with none of %r" % prefixes,
+                      "obligation": what, "result": r, "time": round(time.time() - t0, 3), "approximations": sorted(set(approx))}
+                if r == "sat":
+                    ob["witness"] = (case or "") + sv.model().eval(free, model_completion=True).as_string()
+                elif r == "unsat" and approx:
+                    ob["result"] = "unknown"      # an approximated step cannot support a proof
+                obs.append(ob)
+    return obs
+
+
+def replay_constructor_witness(base, text):
+    """-> None when Bytes(base, text) behaves as the reference says (rejected iff malformed; else pushes the decoded bytes)"""
+    import base64 as b64m
+    import pyteal as pt
+    from ..recipe.build import reset_pyteal_state
+    wellformed, want = True, None
+    try:
+        if base == "base16":
+            body = text[2:] if text.startswith("0x") else text
+            if not re.fullmatch(r"([0-9a-fA-F]{2})*", body):
+                raise ValueError
+            want = bytes.fromhex(body)
+        elif base == "base32":
+            if not re.fullmatch(r"([A-Z2-7]{8})*([A-Z2-7]{2}(={6})?|[A-Z2-7]{4}(={4})?|[A-Z2-7]{5}(={3})?|[A-Z2-7]{7}(=)?)?", text):
+                raise ValueError
+            t = text.rstrip("=")
+            want = b64m.b32decode(t + "=" * ((8 - len(t) % 8) % 8))
+        else:
+            if not re.fullmatch(r"([A-Za-z0-9+/]{4})*([A-Za-z0-9+/]{2}==|[A-Za-z0-9+/]{3}=)?", text):
+                raise ValueError
+            want = b64m.b64decode(text)
+    except ValueError:
+        wellformed = False
+    reset_pyteal_state()
+    try:
+        teal = pt.compileTeal(pt.Seq(pt.Pop(pt.Bytes(base, text)), pt.Int(1)), pt.Mode.Application, version=6)
+    except (pt.TealInputError, pt.TealTypeError) as e:
+        return None if not wellformed else "well-formed text rejected: %s" % str(e)[:80]
+    except Exception as e:  # noqa
+        return "constructor / compiler raised %s: %s" % (type(e).__name__, str(e)[:80])
+    finally:
+        reset_pyteal_state()
+    if not wellformed:
+        return "malformed text accepted; program: %s" % teal.splitlines()[1][:80]
+    try:
+        prog = parse(teal)
+    except TealSyntaxError as e:
+        return "unparsable: %s" % e
+    got = bytes([i for i in prog.instrs if i.op == "byte"][0].args[0])
+    return None if got == want else "pushed %s, the literal denotes %s" % (got.hex(), want.hex())
 
 
 def replay_member(name, text):
@@ -717,6 +1264,32 @@ def main():
             agg["unconfirmed"] += 1
     if esc_obs:
         samples.append({"kernel": esc_src, "example": esc_obs[len(esc_obs) // 2]})
+    # (1b) the assembled form: the compiler reads its own byte-op argument back (unescapeStr) before emitting pushbytes / bytecblock
+    asm_obs, asm_w, asm_src = [], [], ""
+    try:
+        asm_obs, asm_w, asm_src = assembled_obligations(2 if t == "quick" else 3, tmo)
+    except HarnessError as e:
+        rep.harness_error("the read-back of byte-op arguments can no longer be interpreted from its source: %s" % e)
+    for o in asm_obs:
+        agg["obligations"] += 1
+        if o["result"] == "unsat":
+            agg["discharged"] += 1
+        elif o["result"] != "sat":
+            agg["inconclusive"] += 1
+        solver_time += o.get("time", 0)
+    for text, claimed, combo in list(witnesses) + asm_w:
+        if text is None:
+            continue
+        got, err, teal = real_bytes_of_str(text, assemble=True)
+        agg["replayed"] += 1
+        want = text.encode("utf-8")
+        if err is not None or got != want:
+            rep.violation({"kind": "str-literal", "assemble": True, "text": text, "codepoints": [ord(c) for c in text], "classes": combo,
+                           "observed": err or got.hex(), "expected": want.hex(), "teal": teal[-400:]}, ["str-literal"])
+        elif claimed and (text, True, combo) in asm_w:
+            agg["unconfirmed"] += 1
+    if asm_obs:
+        samples.append({"kernel": asm_src, "example": asm_obs[len(asm_obs) // 2]})
     # (2)
     try:
         vobs, members = validator_obligations(tmo)
@@ -743,6 +1316,36 @@ def main():
         if why:
             rep.violation({"kind": "based-literal", "validator": name, "text": text, "why": why}, ["based-literal"])
     samples += vobs[:2]
+    # (2b)
+    try:
+        cobs = constructor_obligations(tmo)
+    except HarnessError as e:
+        rep.harness_error("Bytes.__init__ can no longer be translated: %s" % e)
+        cobs = []
+    for o in cobs:
+        agg["obligations"] += 1
+        solver_time += o["time"]
+        if o["result"] == "unsat":
+            agg["discharged"] += 1
+        elif o["result"] == "sat":
+            agg["replayed"] += 1
+            why = replay_constructor_witness(o["base"], o["witness"])
+            if why:
+                rep.violation({"kind": "constructor", "base": o["base"], "obligation": o["obligation"], "text": o["witness"], "why": why}, ["based-literal"])
+            else:
+                agg["unconfirmed"] += 1
+        else:
+            agg["inconclusive"] += 1
+    # fixed near-miss texts (one per way of being malformed), whatever the solver said
+    for base, text in (("base16", "0x0xabcd"), ("base16", "ab0xcd"), ("base16", "0xab0x"), ("base16", "0Xab"), ("base16", "abc"), ("base16", "0xabc"), ("base16", "ab cd"),
+                       ("base16", "x0ab"), ("base16", "0x"), ("base16", ""), ("base16", "0xAbCd"), ("base32", "ME======"), ("base32", "ME"), ("base32", "M"), ("base32", "ME="),
+                       ("base32", "me======"), ("base32", "MFRGG==="), ("base32", "MFRGG"), ("base32", "MFRGGZDF"), ("base32", "ME======ME======"),
+                       ("base64", "YQ=="), ("base64", "YQ="), ("base64", "YQ"), ("base64", "YWI="), ("base64", "YWJj"), ("base64", "YW Jj"), ("base64", "YQ==YQ=="), ("base64", "=")):
+        agg["replayed"] += 1
+        why = replay_constructor_witness(base, text)
+        if why:
+            rep.violation({"kind": "constructor", "base": base, "obligation": "fixed near-miss", "text": text, "why": why}, ["based-literal"])
+    samples += cobs[:1]
     # (3)
     try:
         iobs = int_guard_obligations(tmo)
@@ -796,7 +1399,7 @@ def main():
            "programs": agg["replayed"], "disagreements_checked": agg["replayed"],
            "bounds": {"string length": 2 if t == "quick" else 3, "code points": "all scalar values, 11 classes", "regex equivalence": "unbounded"},
            "solver_time_s": round(solver_time, 2), "known_findings_hit": dict(rep.known_hits),
-           "functions_encoded": ["pyteal/util.py:escapeStr", "pyteal/types.py:valid_base16/valid_base32/valid_base64 (re literals)", "pyteal/ast/int.py:Int.__init__",
+           "functions_encoded": ["pyteal/util.py:escapeStr", "pyteal/util.py:unescapeStr (composed with escapeStr; shape of pyteal/compiler/constants.py:extractBytesValue checked)", "pyteal/types.py:valid_base16/valid_base32/valid_base64 (re literals)", "pyteal/ast/bytes.py:Bytes.__init__ (base branches)", "pyteal/ast/int.py:Int.__init__",
                                  "pyteal/types.py:valid_address and pyteal/ast/methodsig.py (members replayed)"]}
     write_evidence(PROP, "other", cov, ["the string literal is the last token of its line (plain TEAL, no source-map annotation)",
                                         "the tokenizer/literal grammar of verif/teal/parse.py models the assembler's",
@@ -826,7 +1429,7 @@ def replay_validator_witness(o):
 def replay(record):
     k = record.get("kind")
     if k == "str-literal":
-        got, err, teal = real_bytes_of_str(record["text"])
+        got, err, teal = real_bytes_of_str(record["text"], assemble=bool(record.get("assemble")))
         print(err or got.hex(), "expected", record["expected"])
         return err is not None or got.hex() != record["expected"]
     if k == "based-literal":
@@ -840,6 +1443,8 @@ def replay(record):
         return replay_method_text(record["text"]) is not None
     if k == "validator":
         return replay_validator_witness(record) is not None
+    if k == "constructor":
+        return replay_constructor_witness(record["base"], record["text"]) is not None
     return False
 
 
